@@ -782,6 +782,27 @@ def make_cases(tier, seed):
                                       seed=int(ers.randint(1, 2 ** 31 - 1)), sparse=True, ext=True))
             for swaps in (0, 0.5, 1.0, 3.0):
                 cases.append(dict(base, kind="cross_rewire", swaps=swaps, seed=sd()))
+    # --- (nearly) complete couplings: the rejection loops need thousands of draws per accepted link / swap
+    drs = np.random.RandomState(104729 * seed + 5)
+    for n1, n2 in ((30, 40), (12, 90)) + (() if quick else ((50, 50), (25, 25))):
+        n = n1 + n2 + 3
+        A = random_graph(drs, n, 0.15)
+        perm = drs.permutation(n)
+        base = {"A": A.tolist(), "l1": perm[:n1].tolist(), "l2": perm[n1:n1 + n2].tolist(), "w": None}
+        for val in (n1 * n2, n1 * n2 - 1, n1 * n2 - 3):
+            cases.append(dict(base, kind="cross_set", how="number", value=int(val), seed=int(drs.randint(1, 2 ** 31 - 1)),
+                              sparse=False))
+    for m in (10, 14):
+        n = 2 * m + 2
+        A = np.zeros((n, n), dtype=int)
+        l1, l2 = list(range(m)), list(range(m, 2 * m))
+        A[np.ix_(l1, l2)] = 1
+        for (a, b) in ((0, 0), (1, 1)):
+            A[l1[a], l2[b]] = 0
+        A = ((A + A.T) > 0).astype(int)
+        for swaps in (0.05, 0.5):
+            cases.append({"A": A.tolist(), "l1": l1, "l2": l2, "w": None, "kind": "cross_rewire", "swaps": swaps,
+                          "seed": int(drs.randint(1, 2 ** 31 - 1))})
     # --- generators embedded on a grid (SpatialNetwork.Model / GeoNetwork.Model)
     ers = np.random.RandomState(7919 * seed + 17)
     for n in (range(2, 8) if quick else range(2, 13)):
